@@ -173,4 +173,24 @@ CHECKS = {
               dict(test="TestC13Variants", quick=T(6, 8), thorough=T(8, 120, 0, 3000)),
               F("FuzzC13Proto", 90), F("FuzzC13Rlp", 90), F("FuzzC13Json", 90)],
     ),
+    "C03": dict(
+        level="exploration",
+        level_text="In ledger states reached by generated histories (confirmed and pooled parts, optional receiver-gate inside "
+                   "the history) valid blocks of every type the state offers (user send, user receive, contract call, regenerated "
+                   "contract receive) are mutated in one or two fields (16 field mutators with boundary values) and repaired in "
+                   "four modes (raw, re-hashed, re-hashed+signed by owner, re-hashed+signed by another key), passed through the "
+                   "RLP wire codec and offered to the real supervisor (verifier + VM). Every ACCEPTED candidate is checked "
+                   "against an independent predicate written from the statement (hash, ed25519 signature by the account's "
+                   "owner via crypto/ed25519 + own sha3 address, typing, exact predecessor at/above the confirmed tip, "
+                   "acknowledged momentum on the chain and not older than the predecessor's, amount in [0,2^255) and <= balance "
+                   "at the predecessor, receive of a confirmed-as-of-ack, unreceived send addressed to the receiver).",
+        level_note="One direction only (accepted => valid), as stated; candidates are offered through ApplyBlock, which is what "
+                   "both the gossip and the sync path call before any insert. The predicate is validated on every state "
+                   "against the node's own valid blocks.",
+        technique="mutation-based property testing (rapid) of valid blocks against an independent validity predicate",
+        rule="case = world + 1-8 states x valid base blocks x 24-60 mutated candidates; non-trivial item = (mutation, base type, "
+             "repair mode) whose candidate passes hash and signature checks, i.e. reaches the contextual verifier",
+        assumptions=HIST_ASSUME,
+        jobs=[dict(test="TestC03", quick=T(8, 10), thorough=T(16, 200, 0, 3000))],
+    ),
 }
